@@ -153,6 +153,8 @@ def run(repo, res, tier):
     res.rule("EQ-C", "__hash__ reads a subset of what __eq__ compares; __hash__ implies __eq__", 30)
     res.rule("EQ-D", "__hash__ total: nullable attributes guarded, hashed elements hashable by declared type", 100)
     res.rule("EQ-E", "set-typed attributes are not converted to sequences before comparison", 10)
+    res.rule("EQ-F", "element-wise matching of a collection of self against other's is two-sided (sizes compared)", 2)
+    res.rule("EQ-G", "__hash__ is order-insensitive wherever __eq__ is", 3)
 
     classes = eq_classes(repo)
     if len(classes) < 35:
@@ -280,6 +282,75 @@ def run(repo, res, tier):
         # ---------------- EQ-D
         if hs is not None:
             _hash_totality(repo, res, cls, hs)
+
+        # ---------------- EQ-F: one-directional matching needs a size comparison (or the reverse direction)
+        if eq is not None:
+            me, ot = [a.arg for a in eq.args.args]
+            prov = Provenance(eq)
+
+            def side(e):
+                r = set()
+                for _d, rs in prov.def_root_sets(e):
+                    r |= rs & {me, ot}
+                return r
+
+            directional = []
+            for n in ast.walk(eq):
+                its = []
+                if isinstance(n, ast.For):
+                    its = [(n.iter, n)]
+                elif isinstance(n, (ast.GeneratorExp, ast.ListComp, ast.SetComp)):
+                    its = [(g.iter, n) for g in n.generators]
+                for it, scope in its:
+                    s_it = side(it)
+                    if len(s_it) != 1:
+                        continue
+                    # does the scope look things up in a collection of the other side?
+                    oth = (ot if s_it == {me} else me)
+                    uses_other = False
+                    for x in ast.walk(scope):
+                        if x is it:
+                            continue
+                        if isinstance(x, (ast.Compare, ast.Subscript, ast.Call)) and not any(y is x for y in ast.walk(it)):
+                            sx = side(x) if isinstance(x, ast.Compare) else set()
+                            if isinstance(x, ast.Compare) and any(isinstance(o, (ast.In, ast.NotIn)) for o in x.ops) and oth in (side(x.comparators[0]) | set()):
+                                uses_other = True
+                    if uses_other:
+                        directional.append((it, scope, s_it))
+            if directional:
+                sized = False
+                for n in ast.walk(eq):
+                    if isinstance(n, ast.Compare) and len(n.ops) == 1 and isinstance(n.ops[0], (ast.Eq, ast.NotEq)):
+                        L, R = n.left, n.comparators[0]
+                        if isinstance(L, ast.Call) and isinstance(R, ast.Call) and call_name(L) == "len" and call_name(R) == "len" and side(L.args[0]) | side(R.args[0]) == {me, ot}:
+                            sized = True
+                        # key-set / set equality of both collections is two-sided as well
+                        if isinstance(L, ast.Call) and isinstance(R, ast.Call) and call_name(L) in ("set", "frozenset", "sorted") and call_name(R) == call_name(L) and side(L) | side(R) == {me, ot}:
+                            sized = True
+                both = {frozenset(sd) for _i, _s, sd in directional}
+                two_way = frozenset({me}) in both and frozenset({ot}) in both
+                for it, scope, sd in directional[:1]:
+                    res.check("EQ-F", "%s.__eq__: matching over %s is two-sided" % (cname, norm(it)), sized or two_way, mod, scope, "%s.__eq__ matches the elements of %s against the other object's without comparing sizes" % (cname, norm(it)), "every element of one side has a partner, but the other side may have more: a == b can hold while b == a does not (equality is not symmetric)")
+
+        # ---------------- EQ-G: order sensitivity of the hash vs. equality
+        if eq is not None and hs is not None:
+            me_e = eq.args.args[0].arg
+            me_h = hs.args.args[0].arg
+
+            def attrs_in(fn, selfname, wrappers):
+                out = set()
+                for n in ast.walk(fn):
+                    if isinstance(n, ast.Call) and call_name(n) in wrappers and n.args:
+                        for x in ast.walk(n.args[0]):
+                            ch = attr_chain(x) if isinstance(x, ast.Attribute) else None
+                            if ch and len(ch) == 2 and ch[0] == selfname:
+                                out.add(strip(ch[1]))
+                return out
+
+            unordered_eq = attrs_in(eq, me_e, ("set", "frozenset", "sorted"))
+            ordered_hash = attrs_in(hs, me_h, ("tuple", "list")) - attrs_in(hs, me_h, ("set", "frozenset", "sorted"))
+            for a in sorted(unordered_eq):
+                res.check("EQ-G", "%s: %s compared without order, hashed without order" % (cname, a), a not in ordered_hash, mod, hs, "%s.__hash__ hashes %s as an ordered sequence while __eq__ compares it as a set" % (cname, a), "two objects that differ only in the order of this collection are equal but hash differently")
 
         # ---------------- EQ-E
         if eq is not None:
